@@ -242,6 +242,10 @@ pub struct Param {
     /// `#[ts(concrete(name = ..))]`
     #[serde(default)]
     pub concrete: Option<TyExpr>,
+    /// the parameter carries an explicit `: ts_rs::TS` bound (it is only used by a skipped
+    /// `PhantomData` marker, so the derive cannot infer the bound)
+    #[serde(default)]
+    pub ts_bound: bool,
 }
 
 #[derive(Clone, Debug, PartialEq, Eq, Hash, serde::Serialize, serde::Deserialize)]
@@ -497,6 +501,14 @@ impl Module {
             }
             if td.is_generic() {
                 out.insert("generic".to_string());
+            }
+            if td.params.iter().any(|p| p.ts_bound) {
+                out.insert("type_parameter_only_in_skipped_marker".to_string());
+            }
+            if let Body::Enum(vs) = &td.body {
+                if td.attrs.repr() == Repr::Internal && vs.iter().any(|v| matches!(&v.body, VBody::Newtype(f) if matches!(f.ty, TyExpr::Param(_)))) {
+                    out.insert("internal_newtype_variant_bare_parameter".to_string());
+                }
             }
             let nconc = td.params.iter().filter(|p| p.concrete.is_some()).count();
             if nconc >= 1 {
